@@ -1,80 +1,103 @@
 NOT_APPLICABLE = {}
 TEXT = {
- "C01": dict(
-  technique="Lean 4 theorems over the regenerated transition/class tables + model-vs-code correspondence (exhaustive short strings) + Lean reference grammar parser as spec",
-  text="Lean theorems re-proved on every run over the tables regenerated from internal/state.go (shape, cell ranges, the seven token-level rows of the automaton, no tree on error, blank input). The executable model of Unmarshal (same tables, same loop) is compared with the implementation on every string of length <=4 (thorough: <=5) over the token alphabet plus generated valid/damaged texts; the Lean RFC 8259 reference parser (Spec.parseRef, written from the grammar, table-free) is compared with the implementation on the same inputs for acceptance, blamed offset and value. The full language-equivalence theorem (unmarshal accepts <-> parseRef accepts) is not closed yet; until then the unbounded claim rests on the table lemmas and the bounded-exhaustive correspondence.",
-  note="Trusted: Lean kernel; tools/gen; the model's loop relative to decode.go (correspondence, not proof); encoding/json as probe oracle. Partial: equivalence to the grammar is validated, not yet proved."),
- "C02": dict(
-  technique="Lean 4 theorems on the getter/cache model + exact-rational float rounding spec + correspondence on values",
+ 'C01': dict(
+  technique='Lean 4 theorems over the regenerated transition/class tables + model-vs-code correspondence (exhaustive short strings) + Lean reference grammar parser as spec',
+  text='Lean theorems re-proved on every run over the tables regenerated from internal/state.go (shape, cell ranges, the seven token-level rows of the automaton, no tree on error, blank input). The executable model of Unmarshal (same tables, same loop) is compared with the implementation on every string of length <=4 (thorough: <=5) over the token alphabet plus generated valid/damaged texts; the Lean RFC 8259 reference parser (Spec.parseRef, written from the grammar, table-free) is compared with the implementation on the same inputs for acceptance, blamed offset and value. The full language-equivalence theorem (unmarshal accepts <-> parseRef accepts) is not closed yet; until then the unbounded claim rests on the table lemmas and the bounded-exhaustive correspondence.',
+  note="Trusted: Lean kernel; tools/gen; the model's loop relative to decode.go (correspondence, not proof); encoding/json as probe oracle. Partial: equivalence to the grammar is validated, not yet proved.",
+ ),
+ 'C02': dict(
+  technique='Lean 4 theorems on the getter/cache model + exact-rational float rounding spec + correspondence on values',
   text="Lean theorems: typed getters succeed only on their type, report wrong-type otherwise and not-parsed on nil. The model reads every value lazily through the cache cell exactly as node.go does; ParseFloat is specified in Lean by exact rational round-to-nearest-even and cross-checked three ways (model, strconv, math/big checker); unquote is modelled byte for byte and compared with the real unquote on both borders; every parsed tree's values are compared with the model and with encoding/json.",
-  note="Trusted: strconv.ParseFloat (specified in Lean, cross-checked), unicode/utf8+utf16 (re-modelled, exhaustively compared on 1-2 byte inputs). Partial: value = denotation theorem against Spec.parseRef not closed yet."),
- "C03": dict(
-  technique="Lean 4 theorems (Source/Marshal/String of clean nodes = byte span) + correspondence on borders + independent span tiling probe",
+  note='Trusted: strconv.ParseFloat (specified in Lean, cross-checked), unicode/utf8+utf16 (re-modelled, exhaustively compared on 1-2 byte inputs). Partial: value = denotation theorem against Spec.parseRef not closed yet.',
+ ),
+ 'C03': dict(
+  technique='Lean 4 theorems (Source/Marshal/String of clean nodes = byte span) + correspondence on borders + independent span tiling probe',
   text="Lean theorems: for every clean complete node Source() is exactly data[b0:b1], and Marshal and String return those bytes for every fuel and formatter. That the borders set by the decoder are exactly the value's span is tied by the decode correspondence (borders of every node compared with the model) and by an independent tiling check over the raw input bytes.",
-  note="Trusted: as C01. Partial: 'borders = exact value span' is proved for the model only relative to the correspondence; the simulation lemma against parseRef is not closed yet."),
-
- "C04": dict(
-  technique="Lean 4 theorems over the regenerated escape table and the Marshal model + heap/quote correspondence + Marshal round-trip probe",
+  note="Trusted: as C01. Partial: 'borders = exact value span' is proved for the model only relative to the correspondence; the simulation lemma against parseRef is not closed yet.",
+ ),
+ 'C04': dict(
+  technique='Lean 4 theorems over the regenerated escape table and the Marshal model + heap/quote correspondence + Marshal round-trip probe',
   text="Lean theorems for EVERY byte string s (re-proved against the regenerated escape set and hex table every run): C04_quoted_is_json_string — what quoteString writes, followed by the closing quote, is accepted by the table-free RFC 8259 string scanner, which stops exactly after that quote; C04_quote_unquote — it reads back to s with every ill-formed byte replaced by U+FFFD (Go's own coercion), unchanged when s is well-formed UTF-8. Also: non-finite dirty numbers make Marshal fail, literals, escape-set facts. Marshal as a whole (containers, clean/dirty mixtures) is modelled and compared with the real code on every state of random mutation histories; every Marshal output is validated and decoded by encoding/json and compared with a plain-data reference. Partial: the tree-level round trip (Marshal output parses back to the abstract value for every reachable tree) needs the heap invariant and is not closed.",
-  note="Trusted: strconv.FormatFloat (parameter), encoding/json (probe oracle). Partial as stated."),
- "C05": dict(
-  technique="Lean 4 executable model of every mutator + well-formedness invariant evaluated on every explored model state + private-state correspondence + plain-data reference probe",
-  text="Every mutator of node_mutations.go and every constructor is modelled on an explicit node heap; after every operation of random histories (all aliasing classes of receiver/argument) the private state of every reachable node of the implementation is compared with the model, and the model evaluates its invariant Heap.wfB (links, positions, key uniqueness, dirty closure, cache coherence, acyclicity) on its own state. Lean theorems so far: mark() only raises dirty flags and dirties its node, the empty heap is well formed, consequences of the invariant (Props.C06), kernel-evaluated witnesses of the SetNode history. The preservation theorem (every step keeps WF and commutes with the abstraction to plain data) is not closed; the claim for all histories rests on the explored ones.",
-  note="Partial: invariant preservation is checked dynamically on the model and by correspondence, not yet proved for all histories."),
- "C06": dict(
-  technique="Lean 4 theorems: consequences of the heap invariant (single owner, positions, keys, no cycles) + invariant evaluated on explored states + all-views probe",
+  note='Trusted: strconv.FormatFloat (parameter), encoding/json (probe oracle). Partial as stated.',
+ ),
+ 'C05': dict(
+  technique='Lean 4 executable model of every mutator + well-formedness invariant evaluated on every explored model state + private-state correspondence + plain-data reference probe',
+  text='Every mutator of node_mutations.go and every constructor is modelled on an explicit node heap; after every operation of random histories (all aliasing classes of receiver/argument) the private state of every reachable node of the implementation is compared with the model, and the model evaluates its invariant Heap.wfB (links, positions, key uniqueness, dirty closure, cache coherence, acyclicity) on its own state. Lean theorems so far: mark() only raises dirty flags and dirties its node, the empty heap is well formed, consequences of the invariant (Props.C06), kernel-evaluated witnesses of the SetNode history. The preservation theorem (every step keeps WF and commutes with the abstraction to plain data) is not closed; the claim for all histories rests on the explored ones.',
+  note='Partial: invariant preservation is checked dynamically on the model and by correspondence, not yet proved for all histories.',
+ ),
+ 'C06': dict(
+  technique='Lean 4 theorems: consequences of the heap invariant (single owner, positions, keys, no cycles) + invariant evaluated on explored states + all-views probe',
   text="Lean theorems derive from Heap.WF: every listed child names its container as parent (single owner), array children carry index i under key itoa i and an array of n children has exactly the keys 0..n-1, object children carry their key, keys are pairwise different, scalars have no children, the container Parent() names lists the node, parent chains end. WF itself is evaluated by the model on every state of the heap stream and the implementation's private state is compared with the model's; a Go probe cross-checks all eleven read views on every live node after every step.",
-  note="Partial: WF preservation by every operation is not yet a theorem (see C05)."),
- "C07": dict(
-  technique="Lean 4 model of ParseJSONPath/ApplyJSONPath (temporaries as in the Go code) + correspondence on results by node identity + independent evaluator over plain data",
+  note='Partial: WF preservation by every operation is not yet a theorem (see C05).',
+ ),
+ 'C07': dict(
+  technique='Lean 4 model of ParseJSONPath/ApplyJSONPath (temporaries as in the Go code) + correspondence on results by node identity + independent evaluator over plain data',
   text="ParseJSONPath, tokenize and ApplyJSONPath are modelled cursor move by cursor move and compared with the implementation on every short string over the path alphabet and on generated (document, path, start node) triples with results compared by node identity and order; an independent evaluator over plain data (written from the selector grammar) is compared with the implementation. Lean theorems: the wildcard step, `$`/`@` anchors, slice index set for ascending steps, no-nil by construction; the slice arithmetic is checked against Python's slice.indices exhaustively for lengths <= 6 (bounded evidence, labelled as such). The general refinement theorem to the selector semantics is open.",
-  note="Partial. The independent evaluator found and the repo now fixes a descending-slice clamp defect."),
- "C08": dict(
-  technique="Lean 4 theorems on truthiness and script index + path/eval correspondence + independent evaluator",
-  text="Lean theorems: the truthiness conversion per type (absent/null false, containers by emptiness, numbers by != 0 incl. -0 and NaN, strings by emptiness), negative script indexes count from the end, kernel-evaluated witnesses of the two shapes named in the property. Filters and scripts are modelled inside ApplyJSONPath with the evaluator threaded through and compared with the implementation and with an independent evaluator on generated queries.",
-  note="Partial: the filter/script laws for arbitrary expressions are tied by correspondence, not proved."),
- "C09": dict(
-  technique="Lean 4 theorems about the shunting-yard core for every operator table + regenerated registry = documented table + exhaustive operator pair/triple stream",
+  note='Partial. The independent evaluator found and the repo now fixes a descending-slice clamp defect.',
+ ),
+ 'C08': dict(
+  technique='Lean 4 theorems on truthiness and script index + path/eval correspondence + independent evaluator',
+  text='Lean theorems: the truthiness conversion per type (absent/null false, containers by emptiness, numbers by != 0 incl. -0 and NaN, strings by emptiness), negative script indexes count from the end, kernel-evaluated witnesses of the two shapes named in the property. Filters and scripts are modelled inside ApplyJSONPath with the evaluator threaded through and compared with the implementation and with an independent evaluator on generated queries.',
+  note='Partial: the filter/script laws for arbitrary expressions are tied by correspondence, not proved.',
+ ),
+ 'C09': dict(
+  technique='Lean 4 theorems about the shunting-yard core for every operator table + regenerated registry = documented table + exhaustive operator pair/triple stream',
   text="Lean theorems, for EVERY operator table whose associativity is uniform per priority level (built-in or user-registered): C09_any_depth — every rendering of every expression tree by the stratified grammar of the documented rules (left-grouping operators take the right operand one level up, right-grouping ones the left; calls and parenthesised sub-expressions are atoms; redundant parentheses anywhere) is converted by the shunting yard (the model's own popOps/popParen/flushStack) into the postfix form of that tree, at any nesting depth; C09_postfix_evaluates_tree — the postfix stack machine computes the tree's value for any operator semantics; the two-operator closed form, parentheses, function binding. For the regenerated built-in registry: equals the documented precedence table, `**` is the only right-grouping operator, uniform, well formed (re-proved against the source every run). The byte-level rpn()/tokenize()/token() (lexing around the core) are modelled cursor move by cursor move and compared with the implementation on every string of length <= 3 (thorough: 4) over the expression alphabet; all 400 (thorough: 8000) operator chains and generated expressions are evaluated against the documented grouping by an independent evaluator.",
-  note="The lexer around the shunting-yard core (what is an operand, longest-match operators, names) is tied by correspondence, not proved; whitespace-insensitivity is the maximal-munch reading of DESIGN.md.",
+  note='The lexer around the shunting-yard core (what is an operand, longest-match operators, names) is tied by correspondence, not proved; whitespace-insensitivity is the maximal-munch reading of DESIGN.md.',
+ ),
+ 'C10': dict(
+  technique='Lean 4 theorems over the regenerated operator/function registry (wiring and implementation shapes) and on the operator model + eval correspondence with stdlib answers supplied by the harness',
   text="Lean theorems re-proved against the source on every run: every numericFunction entry is wired to the Go math function of its name; the shape of each of the 21 operator implementations (operand coercion, result expression, guards) equals the documented table; every registered function is known to the model. On the model: zero divisor for / and %, non-positive randint bound, non-integral or negative where an integer/shift count is required, wrong operand types are errors; coercions only fill caches. Every operator and function is modelled (float arithmetic IEEE on bits, integer semantics on two's complement) and compared with the implementation on generated expressions, with math.* answers taken from the Go standard library directly.",
-  note="math.*, Pow, Pow10, regexp, base64 decoding are parameters (oracle). Partial: no single theorem covers all 80 entries x operand shapes."),
- "C11": dict(
-  technique="Lean 4 totality by construction + cursor theorems for the sub-scanners + regenerated table bounds + exhaustive/adversarial scanner streams with recover() and watchdog",
-  text="Every model function is a terminating Lean definition (structural recursion or explicit fuel), every Go panic site is an explicit panic outcome. Theorems: first/numeric/string/word never move the cursor backwards nor past the end and stop inside the input; every cell of the regenerated tables keeps lookups in range; Unmarshal has exactly two outcomes; the operator stack only moves tokens. The path/expression scanners with their index-- step-backs are compared with the implementation on every short string and on mutated ones (panic = mismatch); queries run under recover() and a watchdog.",
-  note="Partial: `!= panic` for tokenize/rpn/ParseJSONPath/ApplyJSONPath is not yet a theorem; stack exhaustion and wall-clock are runtime facts (watchdog)."),
- "C12": dict(
-  technique="Lean 4 theorems over regenerated effect facts (write sites, atomic.Value uses, call graph) + go -race program",
+  note='math.*, Pow, Pow10, regexp, base64 decoding are parameters (oracle). Partial: no single theorem covers all 80 entries x operand shapes.',
+ ),
+ 'C11': dict(
+  technique='Lean 4 totality by construction + cursor theorems for the sub-scanners + regenerated table bounds + exhaustive/adversarial scanner streams with recover() and watchdog',
+  text='Every model function is a terminating Lean definition (structural recursion or explicit fuel), every Go panic site is an explicit panic outcome. Theorems: first/numeric/string/word never move the cursor backwards nor past the end and stop inside the input; every cell of the regenerated tables keeps lookups in range; Unmarshal has exactly two outcomes; the operator stack only moves tokens. The path/expression scanners with their index-- step-backs are compared with the implementation on every short string and on mutated ones (panic = mismatch); queries run under recover() and a watchdog.',
+  note='Partial: `!= panic` for tokenize/rpn/ParseJSONPath/ApplyJSONPath is not yet a theorem; stack exhaustion and wall-clock are runtime facts (watchdog).',
+ ),
+ 'C12': dict(
+  technique='Lean 4 theorems over regenerated effect facts (write sites, atomic.Value uses, call graph) + go -race program',
   text="Static theorems, re-proved on every run over facts extracted from the current source: in every function reachable from a read-only entry point no atomic.Value is copied by plain assignment or struct copy, every Store goes into getValue's receiver cell or into a node the function has just allocated, every plain write to a Node field goes to a freshly allocated node or is one of eight justified exceptions (ArrayNode is only given clones, setReference is reached only through Clone on its own clone), and the reachable set is closed under the call edges. With C13 (reads change nothing but cache cells, whose content is a function of unchanged fields) this gives race freedom and sequential results under the Go memory model, which is trusted. A program built with -race runs every pair (thorough: groups of four) of read-only operations concurrently on fresh trees and compares with sequential runs.",
-  note="Trusted: Go memory model, sync/atomic, the syntactic fact extractor. The footprint abstraction (which accesses a statement performs) is validated by the race detector, not proved."),
- "C13": dict(
-  technique="Lean 4 frame theorems (reads change only cache cells) + static write-site theorem + before/after private-state comparison",
-  text="Lean theorems, for every heap, node, fuel and outcome (success or failure): the typed getters, Unpack, Marshal, String, Eq, Neq, Le, Leq, Ge, Geq return a heap that differs from the input heap in cache cells only — same parent, children, key, index, type, data cell, borders, dirty flag, source bytes of every node. Static theorem over the regenerated write-site table: read-reachable code writes only to freshly allocated nodes (Eval wraps clones). JSONPath, Eval and Clone are tied by correspondence: the private state of the whole forest is compared before and after every query, incl. failing ones.",
-  note="Partial: the frame theorem for ApplyJSONPath/Eval/Clone (which allocate) is by correspondence and static facts."),
- "C14": dict(
-  technique="Lean 4 theorems on clone() + kernel-evaluated witness + identity comparison over everything reachable",
+  note='Trusted: Go memory model, sync/atomic, the syntactic fact extractor. The footprint abstraction (which accesses a statement performs) is validated by the race detector, not proved.',
+ ),
+ 'C13': dict(
+  technique='Lean 4 frame theorems (reads change only cache cells) + static write-site theorem + before/after private-state comparison',
+  text='Lean theorems, for every heap, node, fuel and outcome (success or failure): the typed getters, Unpack, Marshal, String, Eq, Neq, Le, Leq, Ge, Geq return a heap that differs from the input heap in cache cells only — same parent, children, key, index, type, data cell, borders, dirty flag, source bytes of every node. Static theorem over the regenerated write-site table: read-reachable code writes only to freshly allocated nodes (Eval wraps clones). JSONPath, Eval and Clone are tied by correspondence: the private state of the whole forest is compared before and after every query, incl. failing ones.',
+  note='Partial: the frame theorem for ApplyJSONPath/Eval/Clone (which allocate) is by correspondence and static facts.',
+ ),
+ 'C14': dict(
+  technique='Lean 4 theorems on clone() + kernel-evaluated witness + identity comparison over everything reachable',
   text="Lean theorems: the root of a clone is a newly allocated node, and its record never carries a container cache (so a clone cannot hand out the original's child pointers). A kernel-evaluated witness (original's cache filled before cloning) shows all clone nodes new, clone detached, heap well formed, and an edit of the clone leaving every original record unchanged. The implementation is compared with the model after every Clone in random histories and a probe checks that nothing reachable from a clone through any accessor belongs to an older tree.",
-  note="Partial: freshness of ALL clone nodes and non-interference for all later histories are not yet theorems."),
- "C15": dict(
-  technique="Lean 4 theorems: every error exit of every mutator returns the input heap + before/after fingerprint probe on failing calls",
-  text="Lean theorems, one per error exit: nil receiver, loop requests (checked over ALL arguments before the first modification, for SetArray, SetObject, AppendArray), SetNode of an ancestor, wrong receiver type, wrong parent, missing key or index — the returned heap IS the input heap. The exits inside appendNode/remove that lie after the first modification are unreachable in a well-formed heap (dynamic: the invariant is evaluated on every explored state; the theorem needs WF preservation, open). A Go probe compares the public fingerprint of all live trees before and after every failing call in random histories.",
-  note="Partial as stated."),
- "C16": dict(
-  technique="Lean 4 theorems on escapePathKey/unquote and pathOf + Path round-trip probe on every live node",
+  note='Partial: freshness of ALL clone nodes and non-interference for all later histories are not yet theorems.',
+ ),
+ 'C15': dict(
+  technique='Lean 4 theorems: every error exit of every mutator returns the input heap + before/after fingerprint probe on failing calls',
+  text='Lean theorems, one per error exit: nil receiver, loop requests (checked over ALL arguments before the first modification, for SetArray, SetObject, AppendArray), SetNode of an ancestor, wrong receiver type, wrong parent, missing key or index — the returned heap IS the input heap. The exits inside appendNode/remove that lie after the first modification are unreachable in a well-formed heap (dynamic: the invariant is evaluated on every explored state; the theorem needs WF preservation, open). A Go probe compares the public fingerprint of all live trees before and after every failing call in random histories.',
+  note='Partial as stated.',
+ ),
+ 'C16': dict(
+  technique='Lean 4 theorems on escapePathKey/unquote and pathOf + Path round-trip probe on every live node',
   text="Lean theorems: Path() of a root is `$`, of a child its parent's path plus one segment chosen by the PARENT's type (index for arrays, escaped key for objects); C16_ascii_key_roundtrip_partial — for EVERY key made of bytes below 0x80 (quotes, backslashes, brackets, dots, control characters, empty) the single-quoted name Path() writes is read back by the path scanner's unquoter as exactly that key. A probe evaluates root.JSONPath(n.Path()) for every live node after every step of random histories with adversarial keys (incl. non-ASCII) and checks pairwise distinctness.",
-  note="Partial: non-ASCII keys and the induction over the whole path (parse_path_append, apply fold) are by probe, not proved.",
-  text="Lean theorems: numeric equality is symmetric, reflexive off NaN, -0 == 0, < is irreflexive, <= is < or ==; string order is irreflexive, asymmetric and total; a nil operand gives not-parsed, different types give false for Eq and all orderings, same non-number non-string types give a type error, two nulls are equal, Neq is the negation of Eq. Eq on containers is modelled (sorted walk of the left map, lookups on the right) and compared with the implementation and with deep equality of independently tracked plain values on random pairs from random histories.",
-  note="Partial: Eq = abstract value equality for containers needs WF (key uniqueness) and is not yet a theorem."),
- "C18": dict(
-  technique="Lean 4 theorem over the regenerated table of all byte-level writes + model-level immutability of input buffers + guarded-buffer probe",
-  text="Static theorem re-proved on every run: every byte-level write of the package (indexed store, copy, append) has a destination allocated in the same function (make, literal, conversion, nil slice), and the set of byte-writing functions is the expected one. On the model the heap primitives, reads and mutator primitives never touch an input buffer and Unmarshal appends exactly one. Dynamic: inputs are sub-slices of guarded buffers (sentinels before, after and in spare capacity), compared byte for byte after every step of random histories.",
-  note="Trusted: the syntactic root classification of the fact extractor."),
- "C19": dict(
-  technique="Lean 4 theorems (Node.JSONPath = Parse;Apply, `$`/`@` commands) + three-entry-point and anchor probes on every live node",
-  text="Lean theorems: the method JSONPath is ParseJSONPath followed by ApplyJSONPath, a path that does not parse fails identically before any node is looked at, `$` puts root(start) and `@` puts start into the working set (first command only), one step of root(). A probe evaluates $-paths from every live node and from its root, Node.JSONPath vs ApplyJSONPath(ParseJSONPath), and @-paths vs Path()-prefixed paths after every step of random histories.",
-  note="Partial: root(n) = root(m) within a tree needs WF acyclicity preservation (open)."),
- "C20": dict(
-  technique="Lean 4 theorems about the CLI glue model (reader loop = line splitting, single-mode dichotomy, -q only affects stderr) + built binary vs model vs statement",
+  note='Partial: non-ASCII keys and the induction over the whole path (parse_path_append, apply fold) are by probe, not proved.',
+ ),
+ 'C17': dict(
+  technique='Lean 4 theorems on the comparison model (IEEE eq/lt on bit patterns, bytewise string order, type dispatch) + comparison against plain-data equality',
+  text='Lean theorems: numeric equality is symmetric, reflexive off NaN, -0 == 0, < is irreflexive, <= is < or ==; string order is irreflexive, asymmetric and total; a nil operand gives not-parsed, different types give false for Eq and all orderings, same non-number non-string types give a type error, two nulls are equal, Neq is the negation of Eq. Eq on containers is modelled (sorted walk of the left map, lookups on the right) and compared with the implementation and with deep equality of independently tracked plain values on random pairs from random histories.',
+  note='Partial: Eq = abstract value equality for containers needs WF (key uniqueness) and is not yet a theorem.',
+ ),
+ 'C18': dict(
+  technique='Lean 4 theorem over the regenerated table of all byte-level writes + model-level immutability of input buffers + guarded-buffer probe',
+  text='Static theorem re-proved on every run: every byte-level write of the package (indexed store, copy, append) has a destination allocated in the same function (make, literal, conversion, nil slice), and the set of byte-writing functions is the expected one. On the model the heap primitives, reads and mutator primitives never touch an input buffer and Unmarshal appends exactly one. Dynamic: inputs are sub-slices of guarded buffers (sentinels before, after and in spare capacity), compared byte for byte after every step of random histories.',
+  note='Trusted: the syntactic root classification of the fact extractor.',
+ ),
+ 'C19': dict(
+  technique='Lean 4 theorems (Node.JSONPath = Parse;Apply, `$`/`@` commands) + three-entry-point and anchor probes on every live node',
+  text='Lean theorems: the method JSONPath is ParseJSONPath followed by ApplyJSONPath, a path that does not parse fails identically before any node is looked at, `$` puts root(start) and `@` puts start into the working set (first command only), one step of root(). A probe evaluates $-paths from every live node and from its root, Node.JSONPath vs ApplyJSONPath(ParseJSONPath), and @-paths vs Path()-prefixed paths after every step of random histories.',
+  note='Partial: root(n) = root(m) within a tree needs WF acyclicity preservation (open).',
+ ),
+ 'C20': dict(
+  technique='Lean 4 theorems about the CLI glue model (reader loop = line splitting, single-mode dichotomy, -q only affects stderr) + built binary vs model vs statement',
   text="Lean theorems, for every library behaviour (a parameter): single-document mode prints the serialisation, a newline and exits 0 with silent stderr, or prints nothing, writes stderr and exits non-zero; -q changes stderr only; one round of the ReadBytes loop reads exactly the first line of the specification's split (a last line without newline included) and lines partition the input. The binary built from /repo/cmd/ajson is run on generated stdin/expressions/modes and compared with the model (given the library's per-line answers computed in-process) and with the statement directly.",
-  note="The library's answer per document is a parameter of the model."),
+  note="The library's answer per document is a parameter of the model.",
+ ),
 }
